@@ -99,6 +99,31 @@ def c15_a(ctx: Ctx):
                     out.append(ctx.viol(R, fi, n, f"{mut} in _DocProxy.{name} is not guarded by `not self.dry_run`: a dry run modifies the document"))
     if n_doc < 2:
         out.append(ctx.inc(R, None, None, f"only {n_doc} document mutations found in _DocProxy (expected >= 2)", construct=DP + "|count"))
+    fwd = [m for m in dp.methods if m in ("__getattr__", "__getattribute__")]
+    if fwd:
+        f0 = dp.methods[fwd[0]]
+        out.append(ctx.viol(R, f0, f0.node, f"_DocProxy defines {fwd[0]}: attributes it does not implement itself are forwarded to the wrapped document, which hands out the unguarded mutators "
+                            "(setdefault, pop, reset, clear ...) of the real document - a custom doc_sync function then writes in a dry run", construct=DP + "|no-forwarding"))
+    else:
+        out.append(ctx.ok(R, None, None, "_DocProxy forwards nothing dynamically: only the methods it defines can reach the document", construct=DP + "|no-forwarding"))
+    si = dp.methods.get("__setitem__")
+    if si is not None:
+        scfg = ctx.cfg(si)
+        stores = {n.id for n in scfg.stmt_nodes() if isinstance(n.ast, ast.Assign) and any(isinstance(t, ast.Subscript) and canon(t.value) == "self.doc" for t in n.ast.targets)}
+        paths, trunc = scfg.paths_to(scfg.exit, kinds="n")
+        skipped = None
+        for path, facts in paths:
+            if not (set(path) & stores) and not any(pol and t.replace(" ", "") == "self.dry_run" for (t, pol) in facts):
+                skipped = skipped or (path, facts)
+        k = DP + ".__setitem__|always-stores"
+        if trunc or not stores:
+            out.append(ctx.inc(R, si, si.node, "_DocProxy.__setitem__: store / paths not determined", construct=k))
+        elif skipped:
+            out.append(ctx.viol(R, si, si.node, f"_DocProxy.__setitem__ can return without storing although this is not a dry run (facts on that path: {sorted(set(skipped[1]))}): e.g. values that "
+                                "compare equal but differ in type (1 / True / 1.0) are not written, so DocSync.update does not make the destination agree with the source",
+                                construct=k, witness=scfg.describe_path(skipped[0])))
+        else:
+            out.append(ctx.ok(R, si, si.node, "outside a dry run _DocProxy.__setitem__ always stores the value", construct=k))
     return out
 
 
@@ -503,7 +528,13 @@ def c15_f(ctx: Ctx):
     inner = sp.nested.get("_clone_or_sync")
     par = [n for n in body_nodes(sp) if isinstance(n, ast.Call) and isinstance(n.func, ast.Attribute) and n.func.attr in ("imap", "map", "imap_unordered")]
     seq = [n for n in body_nodes(sp) if isinstance(n, ast.Call) and isinstance(n.func, ast.Name) and n.func.id == "_clone_or_sync"]
-    if inner is None or not par or not seq:
+    fire_forget = [n for n in body_nodes(sp) if isinstance(n, ast.Expr) and isinstance(n.value, ast.Call) and isinstance(n.value.func, ast.Attribute)
+                   and n.value.func.attr in ("apply_async", "map_async", "starmap_async", "submit")]
+    if fire_forget:
+        out.append(ctx.viol(R, sp, fire_forget[0], f"the parallel branch starts jobs with {canon(fire_forget[0].value.func)}(...) and never collects the results: an exception raised while "
+                            "synchronising a job (FileSyncConflict, DocumentSyncConflict, an I/O error) is discarded, the sync returns normally although that job was not synchronised - "
+                            "parallel and sequential runs differ", construct=SP + "|parallel-propagates-errors"))
+    elif inner is None or not par or not seq:
         out.append(ctx.inc(R, sp, sp.node, "parallel / sequential application of _clone_or_sync not found"))
     else:
         p = par[0]
